@@ -74,8 +74,10 @@ class Fixtures:
         assert r["rc"] == 0, r
         r = cli.run_pna(["--quiet", "create", "../tree_kd.pna", "--store", "--keep-dir", "-r", "in"], os.path.join(d, "t"))
         assert r["rc"] == 0, r
+        r = cli.run_pna(["--quiet", "create", "../tree_kp.pna", "--store", "--keep-dir", "--keep-permission", "-r", "in"], os.path.join(d, "t"))
+        assert r["rc"] == 0, r
         self.entries = {}
-        for ar in ("tree.pna", "tree_kd.pna"):
+        for ar in ("tree.pna", "tree_kd.pna", "tree_kp.pna"):
             ents, end = cli.dump([os.path.join(d, ar)])
             assert end == "OK", (ar, end)
             self.entries[ar] = [(cli.unhex(e["name"]).decode(), e["kind"]) for e in ents if "solid_header" not in e]
@@ -137,6 +139,9 @@ def commands(fx, tier):
         Cmd("extract", "extract", put("tree.pna"), ["--quiet", "extract", "tree.pna", "--out-dir", "out"], dirpos=True),
         Cmd("extract-cwd", "extract", put("tree.pna"), ["--quiet", "extract", "tree.pna"], dirpos=True),
         Cmd("extract-keepdir", "extract", put("tree_kd.pna"), ["--quiet", "extract", "tree_kd.pna", "--out-dir", "out"], dirpos=True),
+        # directory entries with stored permissions: an existing directory (mode 0700 here) or a link to one at a
+        # directory entry's destination must be neither reused, chmod-ed nor replaced
+        Cmd("extract-keepdir-perm", "extract", put("tree_kp.pna"), ["--quiet", "extract", "tree_kp.pna", "--out-dir", "out", "--keep-permission"], dirpos=True),
         Cmd("stdio-x", "stdio_extract", put("tree.pna"), ["--quiet", "experimental", "stdio", "-x", "--out-dir", "out"],
             stdin="tree.pna", dirpos=True),
     ]
@@ -212,7 +217,8 @@ def observe_part1(c, fx):
 def positions(c):
     """[(logical path, is_dir_position)] where objects may be placed: the output paths (minus the command's own
     inputs, e.g. the archive an in-place split reads) and, for extraction, the directory positions above them"""
-    pos = [(p, False) for _, p in c.outputs]
+    # the destination of a directory entry may hold a directory or a link to one as well
+    pos = [(p, k == "d") for k, p in c.outputs]
     if c.dirpos:
         seen = set(p for _, p in c.outputs)      # a directory entry's own destination is already a position
         for _, p in c.outputs:
@@ -243,7 +249,7 @@ def place(root, placed):
         elif kind == "empty":
             open(ap, "wb").close()
         elif kind == "dir":
-            os.mkdir(ap)
+            os.mkdir(ap, 0o700)
         elif kind == "linkfile":
             t = os.path.join(root, "targets", "t%d" % i)
             open(t, "wb").write(b"link target %d\n" % i)
@@ -356,7 +362,7 @@ def scenarios(cs, tier, rnd):
     """[(cmd, placed list, ow)] — fixed counts per tier"""
     out = []
     main = [c for c in cs if c.name in ("create", "create-split", "create-split-1part", "split", "split-1part-outdir",
-                                        "concat", "stdio-c", "extract", "stdio-x")]
+                                        "concat", "stdio-c", "extract", "extract-keepdir-perm", "stdio-x")]
     for c in cs:
         out.append((c, [], False))                      # clean run through the model as well
         pos = positions(c)
@@ -390,11 +396,11 @@ def scenarios(cs, tier, rnd):
             m = rnd.randint(1, min(len(pos), 6))
             sub = rnd.sample(pos, m)
             out.append((c, [(p, rnd.choice(KINDS_DIRPOS if isd else KINDS_LEAF)) for p, isd in sub], False))
-    elif len(out) > 260:
+    elif len(out) > 330:
         head = [s for s in out if len(s[1]) < 2 or s[2]]
         pairs = [s for s in out if len(s[1]) == 2 and not s[2]]
         rnd.shuffle(pairs)
-        out = head + pairs[:max(0, 260 - len(head))]
+        out = head + pairs[:max(0, 330 - len(head))]
     return out
 
 
